@@ -411,7 +411,7 @@ theorem reRead_go_length (delim : Nat) : ∀ (f : Nat) (s acc : Bytes),
       split
       · simp only [List.length_cons]; omega
       · split
-        · have := ih (r.drop 1) (if r.headD 0 != delim then acc ++ [92, r.headD 0] else acc ++ [r.headD 0])
+        · have := ih (r.drop 1) (if !(r.headD 0 == delim && decide (delim < 128)) then acc ++ [92, r.headD 0] else acc ++ [r.headD 0])
           simp only [List.length_drop, List.length_cons] at *
           omega
         · have := ih r (acc ++ [c])
